@@ -15,6 +15,10 @@ def population():
     pop["k1"].kids = [pop["k2"]]
     pop["k2"].kids = [pop["s1"]]
     pop["e1"].kids = [pop["e3"]]
+    # receivers that carry an attribute called `obj` (handles, wrappers, linked nodes): k1 -> k2, s1 -> k1, u1 -> itself
+    pop["k1"].obj = pop["k2"]
+    pop["s1"].obj = pop["k1"]
+    pop["u1"].obj = pop["u1"]
     return pop
 
 
